@@ -203,7 +203,7 @@ impl Subj {
     fn iter_jumps(&self, len: usize) -> Value {
         let all: Vec<usize> = (0..len).map(|i| self.index(i)).collect();
         for p in 0..=len.min(12) {
-            for how in 0..3 {
+            for how in 0..4 {
                 let (w, _) = self.iter_window(p, len + 2, how);
                 if w != all[p.min(len)..] {
                     return json!(format!("from {p} (how {how}) the iterator yields {:?}", w));
@@ -729,6 +729,16 @@ impl Subj {
                         it.next();
                     }
                 }
+                3 => {
+                    // nth on an iterator that was already advanced
+                    let first = from.min(2);
+                    for _ in 0..first {
+                        it.next();
+                    }
+                    if from > first {
+                        it.nth(from - first - 1);
+                    }
+                }
                 _ => {
                     for _ in 0..from / 2 {
                         it.next();
@@ -917,7 +927,7 @@ pub fn cmd_walk(seed: u64, runs: usize, maxlen: usize, out: &str) {
                     // a window of the iterator
                     let len = s.len();
                     let from = if len == 0 { 0 } else { rng.gen_range(0..=len) };
-                    let how = rng.gen_range(0..3);
+                    let how = rng.gen_range(0..4);
                     match guarded(|| s.iter_window(from, 8, how)) {
                         Ok((vs, complete)) => ev(json!({"ev": "iter", "from": from, "how": how, "vs": vs.into_iter().map(unword).collect::<Vec<_>>(), "complete": complete, "panic": false})),
                         Err(m) => {
@@ -928,16 +938,18 @@ pub fn cmd_walk(seed: u64, runs: usize, maxlen: usize, out: &str) {
                 }
                 7 => {
                     if rng.gen_bool(0.4) {
+                        let cb: usize = s.heap().iter().map(|p| p.1).sum();
                         match guarded(|| {
                             s.clear();
                             (s.len(), s.is_empty(), s.used())
                         }) {
                             Ok((len, empty, used)) => {
-                                ev(json!({"ev": "clear", "len": len, "empty": empty, "used": used, "panic": false}));
+                                let ca: usize = s.heap().iter().map(|p| p.1).sum();
+                                ev(json!({"ev": "clear", "len": len, "empty": empty, "used": used, "cap_before": cb, "cap_after": ca, "panic": false}));
                                 first_phase = true;
                             }
                             Err(m) => {
-                                ev(json!({"ev": "clear", "len": 0, "empty": true, "used": 0, "panic": true, "msg": m}));
+                                ev(json!({"ev": "clear", "len": 0, "empty": true, "used": 0, "cap_before": 0, "cap_after": 0, "panic": true, "msg": m}));
                                 alive = false;
                             }
                         }
